@@ -35,3 +35,10 @@ known("C13","C13-dot-join-collision","two distinct composite keys whose '%v' ren
  ["C13|keypair HR(S,S)|step3 GetItem|GetItem|item|explained-by-dot-join=true@v1","C13|keypair HR(S,S)|step3 GetItem|GetItem|item|explained-by-dot-join=true@v2",
   "C13|keypair HR(S,N)|step3 GetItem|GetItem|item|explained-by-dot-join=true@v1","C13|keypair HR(S,N)|step3 GetItem|GetItem|item|explained-by-dot-join=true@v2"],
  {"history":["CreateTable tab (h:S, r:S)","PutItem {h:'a.b', r:'c', v:1}","PutItem {h:'a', r:'b.c', v:2}"],"op":"GetItem {h:'a.b', r:'c'} returns v=2"})
+fixed("C15","C15-v2-batchwrite-failure-early-return","BatchWriteItem reports requests as unprocessed","SDK v2 BatchWriteItem under emulated internal-server failure returned the error instead of UnprocessedItems (the repository's always-failing TestBatchWriteItemWithFailingDatabase)")
+fixed("C15","C15-transact-deprecated-sentinel","TransactWriteItems returns the configured","TransactWriteItems returned the deprecated sentinel whatever failure condition was configured")
+fixed("C04","C04-boundary-item-deleted","pagination resumes correctly","after deletion of the item named by LastEvaluatedKey the next page was empty with no LastEvaluatedKey",["C04|Query|base|after-boundary-deletion|lost@v2"])
+known("C02","C02-number-sort-key-text-order","Query returns items with number-typed sort keys in the order of the numerals' text (1, 10, 2, 9) instead of numeric order, on the base table and on indexes: keys are strings ordered by sort.Strings, a design decision pinned by the key format test (same root cause as C12's key findings). Only sequences that are exactly text-ordered are attributed to this finding",
+ ["C02|HR(S,N)+GSI(g,n)|Query|base|order|N|explained-by-text-order=true@v1","C02|HR(S,N)+GSI(g,n)|Query|base|order|N|explained-by-text-order=true@v2",
+  "C02|HR(S,N)+GSI(g,n)|Query|index|order|N|explained-by-text-order=true@v1","C02|HR(S,N)+GSI(g,n)|Query|index|order|N|explained-by-text-order=true@v2"],
+ {"history":["CreateTable tab (h:S, r:N)","PutItem {h:p,r:2}","PutItem {h:p,r:10}"],"op":"Query h = :p -> [10, 2]"})
